@@ -247,6 +247,7 @@ DpOf(f) == IF "dp" \in DOMAIN f THEN f.dp ELSE 0
 Call(f, args) ==
   IF f.t # "func" THEN Err
   ELSE IF Len(args) # Len(f.ps) THEN Err
+  ELSE IF \E j \in 1..Len(f.ps) : f.ps[j] \in Reserved \/ f.ps[j] = N_env THEN Err    \* a parameter is a binding: no reserved word
   ELSE IF DpOf(f) >= MaxNest THEN Unm
   ELSE EvalE(f.body, f.env \o << Fld(N_depth, IntV(DpOf(f) + 1)) >> \o [j \in 1..Len(args) |-> Fld(f.ps[j], args[j])], << >>)
 
@@ -358,7 +359,9 @@ IsCPrim(v) == v.t \in {"int", "float", "str", "bool"}     \* what a run-time che
 EvalArm(a, rho, selfs) ==
   IF a.a = "shape"
     THEN LET v == EvalE(a.x, rho, selfs)
-         IN IF Bad(v) THEN v ELSE IF IsCPrim(v) THEN [t |-> "arm", a |-> "exact", v |-> v] ELSE Unm
+         IN IF Bad(v) THEN v ELSE IF IsCPrim(v) THEN [t |-> "arm", a |-> "exact", v |-> v]
+            ELSE IF v.t = "con" THEN [t |-> "arm", a |-> "sub", c |-> v]       \* a named constraint as an alternative: its own arms count
+            ELSE Unm
     ELSE LET lo == IF a.lo = << >> THEN Null ELSE EvalE(a.lo[1], rho, selfs)
              hi == IF a.hi = << >> THEN Null ELSE EvalE(a.hi[1], rho, selfs)
          IN IF AnyBad(<< lo, hi >>) THEN Worst(<< lo, hi >>)
@@ -367,8 +370,10 @@ EvalArm(a, rho, selfs) ==
                    THEN Err                                     \* "Range constraint bounds must be numeric"
             ELSE [t |-> "arm", a |-> "irange", lo |-> IF lo.t = "int" THEN << lo.i >> ELSE << >>,
                                                hi |-> IF hi.t = "int" THEN << hi.i >> ELSE << >>]
+RECURSIVE ArmHolds(_, _)
 ArmHolds(v, arm) ==
   IF arm.a = "irange" THEN v.t = "int" /\ (arm.lo = << >> \/ v.i >= arm.lo[1]) /\ (arm.hi = << >> \/ v.i <= arm.hi[1])
+  ELSE IF arm.a = "sub" THEN arm.c.arms = << >> \/ \E j \in 1..Len(arm.c.arms) : ArmHolds(v, arm.c.arms[j])
   ELSE v.t = arm.v.t /\ v = arm.v
 (* does value v pass what was written after `::` (evaluated to c)?  "ok" / "fail" / "unm" *)
 Passes(v, c) ==
